@@ -2,8 +2,10 @@ package props
 
 import (
 	"fmt"
+	"go/format"
 	"go/parser"
 	"go/token"
+	"sort"
 	"strings"
 
 	"verif/harness/lab"
@@ -16,17 +18,77 @@ import (
 // c09Profile: names and types chosen to stress string concatenation in the templates.
 var c09Profile = synth.Profile{Name: "c09", MaxControllers: 3, MaxMethods: 5, MultiPkg: true, MultiFile: true, Hidden: true, ParamIn: allInC09, ParamTypeLevel: 2,
 	Validators: true, RuntimeValidators: true, Models: 2, CustomErrors: true, Responses: true, RouteStyle: "clean", CtlRouteParams: true, WireNames: true, CtxParams: true,
-	AnyBytesTime: true, NestedSlices: true, Maps: true, Security: true, DefaultSecP: 0.3, HostileNames: true}
+	AnyBytesTime: true, NestedSlices: true, Maps: true, Security: true, DefaultSecP: 0.3, HostileNames: true, CompileHostile: true}
 
 var allInC09 = []string{"path", "query", "header", "form", "body"}
 
 // classifyCompileError attests the cause of a compile failure for known-finding signatures.
-func classifyCompileError(out string) string {
-	switch {
-	case strings.Contains(out, "map[") && (strings.Contains(out, "expected ';'") || strings.Contains(out, "syntax error")):
-		return "map-typed-value-in-import-alias"
-	case strings.Contains(out, "time.Time") && strings.Contains(out, "syntax error"):
-		return "time-typed-value-in-import-alias"
+// templateLocals: identifiers the handler templates themselves declare.
+var templateLocals = []string{"w", "r", "req", "ginCtx", "echoCtx", "fiberCtx", "value", "opError", "controller", "statusCode", "conversionErr", "authErr", "err", "validatorErr", "fieldName", "engine", "emptyErr", "stdError", "validationError",
+	// packages the generated file imports and predeclared identifiers it uses
+	"fmt", "http", "json", "strconv", "strings", "runtime", "context", "io", "reflect", "regexp", "validator", "len", "string", "int", "bool", "error", "make", "append", "nil", "true", "false"}
+
+func lowerCamel(s string) string {
+	parts := strings.FieldsFunc(s, func(r rune) bool { return r == '_' || r == '-' })
+	for i, p := range parts {
+		if p == "" {
+			continue
+		}
+		if i == 0 {
+			parts[i] = strings.ToLower(p[:1]) + p[1:]
+		} else {
+			parts[i] = strings.ToUpper(p[:1]) + p[1:]
+		}
+	}
+	return strings.Join(parts, "")
+}
+
+// classifyCompileError attests the cause of a compile failure from the project descriptor and the
+// first diagnostics, so that a known finding never hides an unrelated compile error.
+func classifyCompileError(p *synth.Project, out string) string {
+	head := out
+	if len(head) > 1500 {
+		head = head[:1500]
+	}
+	// (1) a user parameter name that collides with a template local or with a sibling parameter
+	//     after lower-camel-casing
+	for ci := range p.Controllers {
+		for mi := range p.Controllers[ci].Methods {
+			m := &p.Controllers[ci].Methods[mi]
+			seen := map[string]int{}
+			for _, pr := range m.Params {
+				seen[strings.ToLower(lowerCamel(pr.GoName))]++
+			}
+			for _, pr := range m.Params {
+				lc := lowerCamel(pr.GoName)
+				collides := seen[strings.ToLower(lc)] > 1
+				for _, tl := range templateLocals {
+					if lc == tl {
+						collides = true
+					}
+				}
+				if !collides {
+					continue
+				}
+				for _, probe := range []string{lc + "RawPtr", lc + "Raw", lc + "Uint64", lc + "Float64", lc + "Bool", " " + lc + " (variable of type", "use " + lc + " (", lc + "Var",
+					": " + lc + " (local variable)", ": " + lc + ".", "invalid operation: cannot call non-function " + lc} {
+					if strings.Contains(head, probe) {
+						return "parameter-name-collides-with-generated-identifier"
+					}
+				}
+			}
+		}
+	}
+	// (2) composite / std types spliced into an import alias
+	importSyntax := strings.Contains(head, "missing import path") || strings.Contains(head, "unexpected keyword map") || strings.Contains(head, "expected name") || strings.Contains(head, "expected ';'")
+	if p.Features["map-typed-body-or-result"] && (strings.Contains(head, "map[") || importSyntax) {
+		return "map-typed-value-spliced-into-import-alias"
+	}
+	if p.Features["time-typed-result"] && (strings.Contains(head, "time.Time") || importSyntax) {
+		return "time-typed-result-spliced-into-import-alias"
+	}
+	if p.Features["slice-of-pointers"] && strings.Contains(head, "*") {
+		return "slice-of-pointers-value"
 	}
 	return "other"
 }
@@ -105,7 +167,7 @@ func c09(c *orch.Ctx) (*report.Result, error) {
 				res.AddViolation("package-clause", map[string]string{"engine": e}, fmt.Sprintf("[%s %s] package clause %q, configured %q", p.Name, e, f.Name.Name, "routes_"+e), cs)
 			}
 			if be := rp.BuildErr[e]; be != "" {
-				cause := classifyCompileError(be)
+				cause := classifyCompileError(p, be)
 				causes[cause]++
 				first := be
 				lines := strings.Split(be, "\n")
@@ -119,8 +181,9 @@ func c09(c *orch.Ctx) (*report.Result, error) {
 				continue
 			}
 			if d := rp.GofmtDiff[e]; d != "" {
-				causes["gofmt"]++
-				res.AddViolation("not-gofmt-formatted", map[string]string{"cause": "blank-lines-collapsed-after-formatting"}, fmt.Sprintf("[%s %s] gofmt -l lists the generated file", p.Name, e), cs)
+				cause, detail := classifyFormatting(src)
+				causes["gofmt:"+cause]++
+				res.AddViolation("not-gofmt-formatted", map[string]string{"cause": cause}, fmt.Sprintf("[%s %s] gofmt -l lists the generated file: %s", p.Name, e, detail), cs)
 			}
 		}
 		if len(res.Samples) < 3 {
@@ -140,3 +203,63 @@ func c09(c *orch.Ctx) (*report.Result, error) {
 }
 
 func init() { Registry["C09"] = c09 }
+
+// classifyFormatting attests whether a file differs from its gofmt form ONLY by removed blank lines
+// and by alignment blanks inside lines (the two effects of collapsing blank lines after formatting).
+// Anything else - wrong indentation, unformatted tokens - is another cause.
+func classifyFormatting(src []byte) (cause, detail string) {
+	formatted, err := format.Source(src)
+	if err != nil {
+		return "does-not-parse", err.Error()
+	}
+	nonBlank := func(b []byte) []string {
+		var out []string
+		for _, ln := range strings.Split(string(b), "\n") {
+			if strings.TrimSpace(ln) != "" {
+				out = append(out, ln)
+			}
+		}
+		return out
+	}
+	// the import block: merging the groups lets gofmt re-sort the merged block - order inside it is
+	// therefore also a consequence of the collapse; compare it as a multiset
+	splitImports := func(lines []string) (imports, rest []string) {
+		in := false
+		for _, ln := range lines {
+			t := strings.TrimSpace(ln)
+			switch {
+			case !in && strings.HasPrefix(t, "import ("):
+				in = true
+				rest = append(rest, ln)
+			case in && t == ")":
+				in = false
+				rest = append(rest, ln)
+			case in:
+				imports = append(imports, strings.Join(strings.Fields(t), " "))
+			default:
+				rest = append(rest, ln)
+			}
+		}
+		sort.Strings(imports)
+		return
+	}
+	ai, a := splitImports(nonBlank(src))
+	gi, g := splitImports(nonBlank(formatted))
+	if strings.Join(ai, "\n") != strings.Join(gi, "\n") {
+		return "other", "the import block differs from gofmt output by more than order"
+	}
+	if len(a) != len(g) {
+		return "other", fmt.Sprintf("%d non-blank lines vs %d after gofmt", len(a), len(g))
+	}
+	squeeze := func(s string) string { return strings.Join(strings.Fields(s), " ") }
+	indent := func(s string) string { return s[:len(s)-len(strings.TrimLeft(s, " \t"))] }
+	for i := range a {
+		if indent(a[i]) != indent(g[i]) {
+			return "other", fmt.Sprintf("indentation differs at non-blank line %d: %q vs gofmt %q", i+1, a[i], g[i])
+		}
+		if squeeze(a[i]) != squeeze(g[i]) {
+			return "other", fmt.Sprintf("tokens differ at non-blank line %d: %q vs gofmt %q", i+1, a[i], g[i])
+		}
+	}
+	return "blank-lines-collapsed-after-formatting", "differs from gofmt output only by removed blank lines and in-line alignment"
+}
